@@ -41,7 +41,7 @@ _AXIS_NAME_POSITION_PAIR_LIST = (
 )
 _ARGUMENT = rf"\({_AXIS_NAME_POSITION_PAIR_LIST}\)"
 _ARGUMENT_LIST = f"{_ARGUMENT}(?:,{_ARGUMENT})*"
-_SIGNATURE = f"^{_ARGUMENT_LIST}->{_ARGUMENT_LIST}$"
+_SIGNATURE = f"^{_ARGUMENT_LIST}->{_ARGUMENT_LIST}\\Z"
 
 
 def _maybe_unpack_vector_component(
